@@ -63,12 +63,10 @@ theorem wpOk_pkceHandle (rc : RunCfg) (cfg : Config) (code : Presented) (v : Str
   | req pr =>
     obtain ⟨hss, hres⟩ := hg _ rfl (by intro e; simp)
     rw [exec_getPKCE_fst] at hss
-    simp only [wpOk_bind, wpOk_expectOk, optErr_ok]
-    intro hd hv1 hv2
-    have hd' := step_eq_exec rc (rs.step rc (.getPKCE code.sig)).1 (.deletePKCE code.sig) rfl _ rfl
-      (by intro e he; rw [he] at hd; simp [Res.errKind] at hd)
+    simp only [wpOk_bind, optErr_ok]
+    intro hv1 hv2
     apply h
-    · rw [hd'.1, hss]; exact exec_deletePKCE_same _ _
+    · rw [hss]; exact SameTokens.refl _
     · rw [exec_getPKCE_req rs.ss code.sig pr hres]; exact ⟨hv1, hv2⟩
   | notFound =>
     obtain ⟨hss, hres⟩ := hg _ rfl (by intro e; simp)
@@ -147,6 +145,18 @@ theorem alookup_aset_ne {β} (l : List (Nat × β)) (k k2 : Nat) (v : β) (h : k
 
 theorem exec_newId_ss (ss : SState) : (ss.exec .newId).1.store = ss.store ∧ (ss.exec .newId).1.clients = ss.clients := by
   simp [SState.exec]
+
+/-- success-path specification of `pkce.Handler.PopulateTokenEndpointResponse`: only the PKCE table changes -/
+theorem wpOk_pkcePopulate (rc : RunCfg) (code : Presented) (Q : RState → Unit → Prop) (rs : RState) (hnf : NoFaults rc)
+    (h : ∀ rs', SameTokens rs.ss rs'.ss → Q rs' ()) : wpOk rc (pkcePopulate code) Q rs := by
+  unfold pkcePopulate
+  simp only [wpOk_bind, wpOk_callH]
+  have hd := step_eq_exec rc rs (.deletePKCE code.sig) rfl _ rfl (fun e => step_no_fail rc hnf rs _ e)
+  have hsame : SameTokens rs.ss (rs.step rc (.deletePKCE code.sig)).1.ss := by rw [hd.1]; exact exec_deletePKCE_same _ _
+  cases hk : (rs.step rc (.deletePKCE code.sig)).2.errKind with
+  | none => simp only [wpOk_pure]; exact h _ hsame
+  | some e =>
+    cases e <;> first | (simp only [wpOk_pure]; exact h _ hsame) | exact wpOk_fail rc _ Q _
 
 /-- What a successful code redemption tells about the state before it, and what it leaves behind
     (fault-free runs; any transaction mode). -/
@@ -247,17 +257,21 @@ theorem redeem_wp (rc : RunCfg) (hnf : NoFaults rc) (cfg : Config) (now : Time) 
   · intro hcan rt hrt hcommit
     have h9 := step_eq_exec rc _ (.createRefresh atk _) rfl _ hrt (by intro e; simp)
     apply wpOk_oidcExplicitPopulate rc q.code client _ _ hnf
-    intro rsE b hsameE a r i e sc ho
+    intro rsE b hsameE
+    apply wpOk_pkcePopulate rc q.code _ _ hnf
+    intro rsF hsameF a r i e sc ho
     cases ho
-    apply hfinal rsE _ _ rfl (by simp [hcan])
-    rw [hsameE.2.2.1, step_commit_ss, h9.1, exec_createRefresh_codes]
+    apply hfinal rsF _ _ rfl (by simp [hcan])
+    rw [hsameF.2.2.1, hsameE.2.2.1, step_commit_ss, h9.1, exec_createRefresh_codes]
     exact hdead8
   · intro hcan hcommit
     apply wpOk_oidcExplicitPopulate rc q.code client _ _ hnf
-    intro rsE b hsameE a r i e sc ho
+    intro rsE b hsameE
+    apply wpOk_pkcePopulate rc q.code _ _ hnf
+    intro rsF hsameF a r i e sc ho
     cases ho
-    apply hfinal rsE _ _ rfl (by simp [hcan])
-    rw [hsameE.2.2.1, step_commit_ss]
+    apply hfinal rsF _ _ rfl (by simp [hcan])
+    rw [hsameF.2.2.1, hsameE.2.2.1, step_commit_ss]
     exact hdead8
 
 /-- **Characterisation of a successful code redemption** (any state, any request). -/
